@@ -1437,6 +1437,9 @@ func (fx *FnExec) havocLoop(st *State, lp *Loop) {
 						nm = cc.Method.Name()
 					} else if f, ok := cc.Value.(*ssa.Function); ok {
 						nm = f.Name()
+						if old, renamed := eng.bareAlias[nm]; renamed {
+							nm = old
+						}
 					}
 					if nm == "" {
 						continue
@@ -2311,6 +2314,9 @@ func (fx *FnExec) callGhosts(st *State, in *ssa.Call, recv *Val, res []Val) {
 			return cc.Method.Name()
 		}
 		if f, ok := cc.Value.(*ssa.Function); ok {
+			if old, renamed := fx.eng.bareAlias[f.Name()]; renamed {
+				return old
+			}
 			return f.Name()
 		}
 		return ""
